@@ -383,9 +383,16 @@ Fixpoint take_brace (s : string) : option (string * string) :=
 Definition env_get (env : list (string * string)) (k : string) : string :=
   match lookup k env with Some v => v | None => EmptyString end.
 
-(* os.Expand restricted to "${NAME}" and "$NAME" (NAME = letters, digits, '_', not starting
-   with a digit); a '$' followed by anything else is outside the modelled fragment
-   ([env_str_ok]) *)
+(* os.Expand.  After a '$': "{name}" up to the next '}' ("${}" and an unterminated "${" are bad
+   syntax and are eaten); one of the shell's special variables * # $ @ ! ? - 0..9 (a ONE-character
+   name: "$$" and "$1" are references, to variables that are not set); a name of letters, digits
+   and '_'; anything else, or nothing: the '$' stays.  On a single string value this is exact; an
+   unterminated "${" inside a FILE swallows text up to the next '}' of the file, which is outside
+   the model (Hyps / notes: generated documents contain it only where nothing is expanded). *)
+Definition is_special (c : ascii) : bool :=
+  let n := N_of_ascii c in
+  ((48 <=? n) && (n <=? 57) || (n =? 42) || (n =? 35) || (n =? 36) || (n =? 64) || (n =? 33) || (n =? 63) || (n =? 45))%N.
+
 Fixpoint expand (fuel : nat) (env : list (string * string)) (s : string) : string :=
   match fuel with
   | O => s
@@ -394,17 +401,20 @@ Fixpoint expand (fuel : nat) (env : list (string * string)) (s : string) : strin
     | EmptyString => EmptyString
     | String "$"%char r =>
       match r with
+      | EmptyString => s                                   (* a trailing '$' *)
       | String "{"%char r2 =>
         match take_brace r2 with
         | Some (nm, r3) => (env_get env nm ++ expand n env r3)%string
         | None => expand n env r2                       (* "${" without "}": eaten *)
         end
-      | _ =>
-        let '(nm, r3) := take_name r in
-        match nm with
-        | EmptyString => String "$"%char (expand n env r)
-        | _ => (env_get env nm ++ expand n env r3)%string
-        end
+      | String c r2 =>
+        if is_special c then (env_get env (String c EmptyString) ++ expand n env r2)%string
+        else
+          let '(nm, r3) := take_name r in
+          match nm with
+          | EmptyString => String "$"%char (expand n env r)
+          | _ => (env_get env nm ++ expand n env r3)%string
+          end
       end
     | String c r => String c (expand n env r)
     end
